@@ -834,7 +834,15 @@ func configMatrix(r *mon.Run, bin string) {
 		}
 	}
 	r.Floor("config_flag_given_twice", 1)
-	r.Floor("config_inserts", 1)
+	// (Tab is only pressed where -ctrl-i names a .sh file and the program keeps running:
+	// whether the quick plan has such a case depends on the seed)
+	for _, p := range plans {
+		for _, k := range p.picks {
+			if cfgOptions[k.opt].name == "ctrl-i" && cfgOptions[k.opt].variants[k.variant] == "file" && !p.endsAtStartup() {
+				r.Floor("config_inserts", 1)
+			}
+		}
+	}
 	r.Floor("config_quits_with_shell_attached", 1)
 }
 
